@@ -320,10 +320,11 @@ impl<R: Round> Context<R> {
 
             // In this case, the actual significand of rhs doesn't matter,
             // we can just replace it with 1 for correct rounding
+            // (two digits below the rounding position, so that it stays strictly below 1/2 ulp in base 2)
             let low_prec = if ldigits >= rnd_precision {
                 2
             } else {
-                (rnd_precision - ldigits) + 1
+                (rnd_precision - ldigits) + 2
             }; // low_prec >= 2
             low = (rhs_sign * rhs.significand.signum(), low_prec);
             (lhs.significand, lhs.exponent)
@@ -414,7 +415,7 @@ impl<R: Round> Context<R> {
             let low_prec = if rdigits >= rnd_precision {
                 2
             } else {
-                (rnd_precision - rdigits) + 1
+                (rnd_precision - rdigits) + 2
             };
             low = (lhs.significand.signum(), low_prec);
             (rhs_sign * rhs.significand.clone(), rhs.exponent)
